@@ -1,0 +1,18 @@
+//go:build verif
+// +build verif
+
+package core
+
+// VerifOnPlan, when set, receives the plan Pipeline.Run is about to execute.
+var VerifOnPlan func([]VerifAction)
+
+func verifObservePlan(plan []runAction) {
+	if VerifOnPlan == nil {
+		return
+	}
+	res := make([]VerifAction, len(plan))
+	for i, p := range plan {
+		res[i] = VerifAction{p.Action, p.Commit, append([]int{}, p.Items...)}
+	}
+	VerifOnPlan(res)
+}
